@@ -67,6 +67,8 @@ def print_lit(n, in_bracket=False):
         return '\\x%02X' % cp
     if form == 'x4':
         return '\\x%04X' % cp
+    if form in ('x5', 'x6', 'x7', 'x8'):
+        return '\\x%0*X' % (int(form[1]), cp)
     ch = chr(cp)
     if form == 'esc':
         return '\\' + ch
@@ -306,6 +308,11 @@ def single_items():
            ('bracket', True, [('class', r'\D')]), ('bracket', True, [('class', r'\S')]), ('bracket', True, [('class', r'\W')]), ('bracket', True, [('aclass', '[:ascii:]')]),
            ('bracket', False, [('range', lit(0x7F, 'x2'), lit(0x0080, 'x4'))]), ('bracket', False, [lit(0x0080, 'x4')]), ('bracket', True, [lit(0x0080, 'x4'), lit('a')])]
     out += [lit(0x7F, 'x2'), lit(0x01, 'x2'), lit(0x0080, 'x4')]
+    # unicode_char = "\\x" hex_digit{4,8}: every length, below and beyond the basic plane, zero-padded
+    out += [lit(0x1F600, 'x5'), lit(0x00041, 'x5'), lit(0x10FFFF, 'x6'), lit(0x00263A, 'x6'), lit(0x001F600, 'x7'), lit(0x000004A, 'x7'),
+            lit(0x0001F600, 'x8'), lit(0x0000004A, 'x8'), lit(0x0010FFFF, 'x8')]
+    br += [('bracket', False, [lit(0x0000263A, 'x8'), lit('x')]), ('bracket', False, [('range', lit(0x00041, 'x5'), lit(0x000043, 'x6'))]),
+           ('bracket', True, [lit(0x001F600, 'x7')])]
     return out + br
 
 
